@@ -389,6 +389,146 @@ def _run(tier, seed, t0, REPO):
         stats['generated_accepted'] += 1
         report(check_extension(item, 'generated', data['name']), 'extension-typed', 'generated', data)
         report(check_roundtrips(item, data), 'roundtrip', 'generated', data)
+    # inductive predicates over Booleans against their LEAST MODEL: the predicate is interpreted as the least fixed
+    # point of its rules over {False, True}^k; every theorem of the generated extension (introduction rules, case
+    # rule, induction rule) must be true in that model for every value of its free variables (incl. predicate
+    # variables).  A rule variable that occurs only in premises, recursive premises, constants as arguments.
+    import itertools
+    from kernel.term import Term as _Term
+    basic.load_theory('logic_base')
+    context.set_context('logic_base', vars={})
+
+    class _Skip(Exception):
+        pass
+
+    def dom(T):
+        if T == BoolType:
+            return [False, True]
+        if T.is_fun():
+            ds, rs = dom(T.domain_type()), dom(T.range_type())
+            if len(rs) ** len(ds) > 300:
+                raise _Skip
+            return [tuple(zip(ds, vals)) for vals in itertools.product(rs, repeat=len(ds))]
+        raise _Skip
+
+    def evt(t, env, qname, qset, fresh=[0]):
+        if t.is_var():
+            if t.name not in env:
+                raise _Skip
+            return env[t.name]
+        if t.is_const():
+            if t.name == 'true':
+                return True
+            if t.name == 'false':
+                return False
+            raise _Skip
+        if t.is_implies():
+            return (not evt(t.arg1, env, qname, qset)) or evt(t.arg, env, qname, qset)
+        if t.is_conj():
+            return evt(t.arg1, env, qname, qset) and evt(t.arg, env, qname, qset)
+        if t.is_disj():
+            return evt(t.arg1, env, qname, qset) or evt(t.arg, env, qname, qset)
+        if t.is_not():
+            return not evt(t.arg, env, qname, qset)
+        if t.is_equals():
+            return evt(t.arg1, env, qname, qset) == evt(t.arg, env, qname, qset)
+        if t.is_forall() or t.is_exists():
+            fresh[0] += 1
+            v = Var('_ev%d' % fresh[0], t.arg.var_T)
+            body = t.arg.subst_bound(v)
+            vals = []
+            for val in dom(v.T):
+                e2 = dict(env)
+                e2[v.name] = val
+                vals.append(evt(body, e2, qname, qset))
+            return all(vals) if t.is_forall() else any(vals)
+        if t.is_comb():
+            hd, args = t.strip_comb()
+            if hd.is_const() and hd.name == qname:
+                return tuple(evt(a_, env, qname, qset) for a_ in args) in qset
+            f_ = evt(hd, env, qname, qset)
+            for a_ in args:
+                f_ = dict(f_)[evt(a_, env, qname, qset)]
+            return f_
+        raise _Skip
+
+    def lfp(rules_, arity):
+        # rules_: (variables, [premises], conclusion args); a premise is a variable name or (args)
+        cur = set()
+        while True:
+            nxt = set(cur)
+            for vars_, prems, concl in rules_:
+                for vals in itertools.product([False, True], repeat=len(vars_)):
+                    e = dict(zip(vars_, vals))
+                    def val(a_):
+                        return e[a_] if a_ in e else (a_ == 'true')
+                    if all((val(p_) if isinstance(p_, str) else tuple(val(a_) for a_ in p_) in cur) for p_ in prems):
+                        nxt.add(tuple(val(a_) for a_ in concl))
+            if nxt == cur:
+                return cur
+            cur = nxt
+
+    def show_rule(prems, concl, qn):
+        def one(p_):
+            return p_ if isinstance(p_, str) else '%s %s' % (qn, ' '.join(p_))
+        return ' --> '.join([one(p_) for p_ in prems] + [one(tuple(concl))])
+    pred_cases = [
+        (1, [(['m', 'n'], ['m'], ['n'])]),                                   # premise-only variable
+        (1, [(['m'], [], ['m']), ]),
+        (1, [([], [], ['true'])]),
+        (1, [([], [], ['true']), (['m', 'n'], [('m',), 'n'], ['n'])]),
+        (1, [(['m', 'k'], ['k', ('m',)], ['false'])]),
+        (2, [(['m'], [], ['m', 'm'])]),
+        (2, [(['m'], [], ['m', 'm']), (['m', 'n'], [('m', 'n')], ['n', 'm'])]),
+        (2, [(['m', 'n', 'k'], ['k', ('m', 'n')], ['n', 'k']), ([], [], ['true', 'false'])]),
+        (2, [(['m', 'n', 'k'], [('m', 'k'), ('k', 'n')], ['m', 'n']), (['m'], ['m'], ['m', 'false'])]),
+        (1, [(['m', 'n', 'k'], ['m', 'n'], ['k']), (['m'], [('m',)], ['m'])]),
+    ]
+    for ci, (arity, rules_) in enumerate(pred_cases):
+        qn = 'qb%d' % ci
+        data = {'ty': 'def.pred', 'name': qn, 'type': ' => '.join(['bool'] * (arity + 1)),
+                'rules': [{'name': '%s_r%d' % (qn, ri), 'prop': show_rule(pr_, co_, qn)}
+                          for ri, (_, pr_, co_) in enumerate(rules_)]}
+        stats['generated_defs'] += 1
+        try:
+            item = items.parse_item(json.loads(json.dumps(data)))
+        except Exception as e:
+            violations.append({'function': 'server.items.parse_item', 'clause': 'parses',
+                               'what': 'parse_item raises %s: %s' % (type(e).__name__, str(e)[:120]),
+                               'origin': 'generated', 'item': {'ty': data['ty'], 'name': data['name']}})
+            continue
+        distinct.add(json.dumps(data))
+        if item.error is not None:
+            stats['generated_rejected'] += 1
+            continue
+        stats['generated_accepted'] += 1
+        report(check_extension(item, 'generated', qn), 'extension-typed', 'generated', data)
+        qset = lfp(rules_, arity)
+        try:
+            exts_ = item.get_extension()
+        except Exception:
+            continue
+        for ext in exts_:
+            if not ext.is_theorem():
+                continue
+            prop_ = ext.th.prop
+            fvs = sorted(prop_.get_vars(), key=lambda v_: v_.name)
+            try:
+                doms = [dom(v_.T) for v_ in fvs]
+                bad_env = None
+                for vals in itertools.product(*doms):
+                    env = {v_.name: val_ for v_, val_ in zip(fvs, vals)}
+                    if not evt(prop_, env, qn, qset):
+                        bad_env = env
+                        break
+            except _Skip:
+                stats['pred_model_skipped'] = stats.get('pred_model_skipped', 0) + 1
+                continue
+            stats['pred_model_checked'] = stats.get('pred_model_checked', 0) + 1
+            if bad_env is not None:
+                report(['theorem %s of the extension, %r, is false in the least model of the rules (%s = %s) at %s' % (
+                    ext.name, prop_, qn, sorted(qset), {k_: str(v_)[:40] for k_, v_ in bad_env.items()})],
+                    'extension-true-in-least-model', 'generated', data)
     basic.load_theory('logic_base')
     context.set_context('logic_base', vars={})
     seen = {}
